@@ -107,6 +107,10 @@ type Run struct {
 	flags     map[string]int64
 
 	validate *ValidationCase
+
+	allVars []*Term
+	model_  *evalCtx // a model of pc (nil = none known)
+	skipped int      // solver queries avoided thanks to model_
 }
 
 type ValidationCase struct {
@@ -146,6 +150,30 @@ func (r *Run) assume(t *Term) {
 	}
 	r.pc = append(r.pc, t)
 	r.pending = append(r.pending, t)
+	if r.model_ != nil {
+		if v, ok := r.ts.eval(t, r.model_); !ok || v == 0 {
+			r.model_ = nil
+		}
+	}
+}
+
+// fetchModel records the solver's current model (call right after Sat, in
+// the scope that produced it).
+func (r *Run) fetchModel() {
+	if len(r.allVars) == 0 {
+		r.model_ = &evalCtx{vals: map[string]uint64{}, memo: map[int]evalRes{}}
+		return
+	}
+	vs, err := r.sol.GetValues(r.allVars)
+	if err != nil {
+		r.model_ = nil
+		return
+	}
+	m := &evalCtx{vals: make(map[string]uint64, len(vs)), memo: map[int]evalRes{}}
+	for i, v := range r.allVars {
+		m.vals[v.Name] = vs[i]
+	}
+	r.model_ = m
 }
 
 func (r *Run) feasible(t *Term) SatResult {
@@ -155,8 +183,22 @@ func (r *Run) feasible(t *Term) SatResult {
 		}
 		return Unsat
 	}
+	if r.model_ != nil {
+		if v, ok := r.ts.eval(t, r.model_); ok && v != 0 {
+			r.skipped++
+			return Sat
+		}
+	}
 	r.flush()
-	res := r.sol.CheckWith(t)
+	r.sol.Push()
+	r.sol.Assert(t)
+	res := r.sol.CheckSat()
+	if res == Sat {
+		// this model satisfies pc and t; it stays valid for pc, and for
+		// pc+t if the caller goes on to assume t
+		r.fetchModel()
+	}
+	r.sol.Pop()
 	if res == Unknown {
 		r.unknowns++
 	}
@@ -392,12 +434,21 @@ func (r *Run) check(cond *Term, kind, label, detail string) {
 
 func (r *Run) freshVar(prefix string, w int) *Term {
 	r.fresh++
-	return r.ts.Var(fmt.Sprintf("%s_%d", sanitize(prefix), r.fresh), w)
+	v := r.ts.Var(fmt.Sprintf("%s_%d", sanitize(prefix), r.fresh), w)
+	r.allVars = append(r.allVars, v)
+	if r.model_ != nil {
+		r.model_.vals[v.Name] = 0
+	}
+	return v
 }
 
 func (r *Run) newInput(tag string, w int) *Term {
 	name := fmt.Sprintf("in%d_%s", len(r.inputs), sanitize(tag))
 	t := r.ts.Var(name, w)
+	r.allVars = append(r.allVars, t)
+	if r.model_ != nil {
+		r.model_.vals[name] = 0
+	}
 	r.inputs = append(r.inputs, &InputVar{Name: name, Tag: tag, Width: w, T: t})
 	return t
 }
